@@ -112,7 +112,8 @@ pub fn inputs_c02(r: &mut Rng, n: usize, _tier: &str, out: &mut dyn Write) {
                     }
                     _ => r.range_i64(-100000, 100000),
                 };
-                writeln!(out, "unit_mul_i64 {} {}", u, q).unwrap()
+                // n * Unit::X / Unit::X * n, or the TimeUnits trait on i64 (n.days(), n.hours(), ...)
+                writeln!(out, "{} {} {}", if r.chance(1, 3) { "tu_i64" } else { "unit_mul_i64" }, u, q).unwrap()
             }
             11 => {
                 let sign = r.range_i64(-2, 2);
@@ -339,6 +340,22 @@ pub fn exec(op: &str, a: &[&str]) -> Option<String> {
                 return Some(format!("ok {} {}", d2s(d1), d2s(d2)));
             }
             okd(d1)
+        }
+        "tu_i64" => {
+            use hifitime::TimeUnits;
+            let q = a[1].parse::<i64>().unwrap();
+            okd(match a[0] {
+                "ns" => q.nanoseconds(),
+                "us" => q.microseconds(),
+                "ms" => q.milliseconds(),
+                "s" => q.seconds(),
+                "min" => q.minutes(),
+                "h" => q.hours(),
+                "d" => q.days(),
+                "wk" => q.weeks(),
+                "cy" => q.centuries(),
+                _ => return None,
+            })
         }
         "compose" => {
             let sign = a[0].parse::<i8>().unwrap();
